@@ -283,8 +283,8 @@ connection task's side of `held_not_closed`, which the C09 adapter used to mimic
    multistream-select has said which protocol it is for.
 2. That entry stays, with its permit, across every other transition of the system — other substreams
    being accepted, negotiated, failing; commands; every protocol downgrading or dropping its handle;
-   deliveries; protocols shutting down — until its own negotiation ends (or the loop has returned for
-   another reason): and as long as it is there the command channel has a strong sender, so
+   deliveries; protocols shutting down — until its own negotiation ends (`TLabel.endsNeg k`: success under a main or
+   a fallback name, failure or timeout; or the loop has returned for another reason): and as long as it is there the command channel has a strong sender, so
    `protocol_set.next()` cannot yield `None`: the idle exit is disabled.
 3. When its negotiation succeeds for a live protocol `p` the permits travel with the `SubstreamOpened`
    message (`stage = queued`).
@@ -297,7 +297,7 @@ theorem inbound_negotiation_holds_connection :
       (Conn.tstep s .accept).loop.exited = none) ∧
     (∀ (s : Conn.TLoop) (ls : List Conn.TLabel) (k : Nat) (x : Conn.Sub),
       s.subs[k]? = some x → x.stage = .negotiating →
-      (∀ l ∈ ls, (∀ p, l ≠ .negOk k p) ∧ l ≠ .negFail k) →
+      (∀ l ∈ ls, l.endsNeg k = false) →
       (Conn.trun s ls).loop.exited = none →
         (Conn.trun s ls).subs[k]? = some x ∧ 0 < (Conn.trun s ls).strong ∧
         (Conn.trun s ls).idleEnabled = false ∧
@@ -313,7 +313,7 @@ theorem inbound_negotiation_holds_connection :
   · have := Conn.accept_with_permit s hr hs
     exact ⟨this.1, this.2.1⟩
   · have h1 := Conn.trun_negotiating ls s k x hk hx hls hrun
-    have h2 := Conn.busy_strong_pos _ x (List.mem_of_getElem? h1) (Or.inl hx)
+    have h2 := Conn.busy_strong_pos _ x (List.mem_of_getElem? h1) (Or.inr (Or.inl hx))
     exact ⟨h1, h2, Conn.idle_disabled _ h2⟩
   · exact Conn.negOk_queues s k p x hr hk hx ha hrun
   · have h2 := Conn.busy_strong_pos s x hmem hb
@@ -370,11 +370,11 @@ theorem half_closed_substream_holds_connection :
         (Conn.trun s ls).idleEnabled = false ∧
         Conn.tstep (Conn.trun s ls) .idleExit = Conn.trun s ls) := by
   refine ⟨Conn.halfClose_keeps, fun s x hmem hx hka => ?_, fun s ls k x hk hx hka hls => ?_⟩
-  · have h2 := Conn.busy_strong_pos s x hmem (Or.inr ⟨hka, Or.inr (Or.inr hx)⟩)
+  · have h2 := Conn.busy_strong_pos s x hmem (Or.inr (Or.inr ⟨hka, Or.inr (Or.inr hx)⟩))
     exact ⟨h2, Conn.idle_disabled s h2⟩
   · have h1 := Conn.trun_heldHalf ls s k x hk hx hls
     have hka' : Conn.kaOf (Conn.trun s ls).ka x.proto = true := by rw [Conn.trun_ka]; exact hka
-    have h2 := Conn.busy_strong_pos _ x (List.mem_of_getElem? h1) (Or.inr ⟨hka', Or.inr (Or.inr hx)⟩)
+    have h2 := Conn.busy_strong_pos _ x (List.mem_of_getElem? h1) (Or.inr (Or.inr ⟨hka', Or.inr (Or.inr hx)⟩))
     exact ⟨h1, h2, Conn.idle_disabled _ h2⟩
 
 /-- Non-vacuity (the request/response shape): a keep-alive protocol gets an inbound substream, writes its request and
